@@ -72,6 +72,10 @@ def history(rnd, rep):
         elif r < 0.97:
             # a script is loaded while a query on one of its predicates is suspended
             name, ar = rnd.choice([n_ for n_ in NAMES if n_[1] >= 1])
+            if rnd.random() < 0.7:
+                # the call is suspended among the dynamic facts, before the engine gets to the definition
+                for k in range(rnd.randint(1, 2)):
+                    ops.append(('assert', name, 'z', [[Sym('a'), '%sdyn%d' % (tag, k)]] + [[Sym('a'), 'x']] * (ar - 1)))
             ops.append(('query_load', name, [[Sym('v'), i] for i in range(ar)], rnd.randint(1, 2), rnd.choice(['combine', 'combine', 'overwrite']),
                         script(rnd, tag, refs)))
         else:
